@@ -272,23 +272,124 @@ Section Oracle.
                      scanned)
     end.
 
-  (* ---- language server call sites (internal/lsp/server.go), generic client, names without
-     percent escapes: uri.ToPath is then TrimPrefix(uri, "file://") *)
+  (* ---- language server call sites (internal/lsp/server.go).  The server knows files by URI, percent-encoded
+     by the client (or by uri.FromPath); ignore patterns are written against plain paths.  [uri_to_path] is
+     uri.ToPath: TrimPrefix "file://", url.QueryUnescape when the URI had that prefix (a malformed escape leaves
+     the text as it is), and for the VS Code client the drive letter form ("/c%3A/x" or "/c:/x" -> "c:/x"). *)
   Definition file_scheme : str := [102; 105; 108; 101; 58; 47; 47].   (* "file://" *)
   Definition dot_rego : str := [46; 114; 101; 103; 111].              (* ".rego" *)
-  Definition uri_to_path (u : str) : str := trim_prefix u file_scheme.
+End Oracle.
+
+Definition PERCENT : N := 37.
+Definition PLUS : N := 43.
+Definition SPACE : N := 32.
+Definition COLON : N := 58.
+
+(* value of a hexadecimal digit (ishex/unhex of net/url) *)
+Definition hexval (c : N) : option N :=
+  if (48 <=? c) && (c <=? 57) then Some (c - 48)
+  else if (65 <=? c) && (c <=? 70) then Some (c - 55)
+  else if (97 <=? c) && (c <=? 102) then Some (c - 87)
+  else None.
+
+(* url.QueryUnescape: "%XY" -> the byte, "+" -> " "; None = EscapeError (a "%" not followed by two hex digits) *)
+Fixpoint query_unescape (s : str) {struct s} : option str :=
+  match s with
+  | [] => Some []
+  | c :: s' =>
+      if c =? PERCENT then
+        match s' with
+        | h1 :: h2 :: s'' =>
+            match hexval h1, hexval h2 with
+            | Some a, Some b => option_map (cons (16 * a + b)) (query_unescape s'')
+            | _, _ => None
+            end
+        | _ => None
+        end
+      else option_map (cons (if c =? PLUS then SPACE else c)) (query_unescape s')
+  end.
+
+Inductive lsp_client := ClientGeneric | ClientVSCode.
+
+Definition is_ascii_letter (c : N) : bool := ((65 <=? c) && (c <=? 90)) || ((97 <=? c) && (c <=? 122)).
+
+(* drivePatternMaybeEncoded = ^([A-Za-z])(%3[aA]|:) on the text behind the leading "/":
+   Some (letter, rest behind the match) *)
+Definition drive_split (p : str) : option (N * str) :=
+  match p with
+  | l :: c :: rest =>
+      if is_ascii_letter l then
+        if c =? COLON then Some (l, rest)
+        else match c, rest with
+             | 37, 51 :: a :: rest' => if (a =? 97) || (a =? 65) then Some (l, rest') else None
+             | _, _ => None
+             end
+      else None
+  | _ => None
+  end.
+
+Definition uri_to_path (cl : lsp_client) (u : str) : str :=
+  let raw := trim_prefix u file_scheme in
+  let path := if has_prefix u file_scheme
+              then match query_unescape raw with Some d => d | None => raw end
+              else raw in
+  match cl with
+  | ClientGeneric => path
+  | ClientVSCode =>
+      let p := trim_prefix path [SLASH] in
+      match drive_split p with
+      | Some (l, rest) => l :: COLON :: rest
+      | None => SLASH :: p
+      end
+  end.
+
+(* uri.FromPath, the path part: every segment url.QueryEscape'd with "+" rewritten to "%20", i.e. the unreserved
+   characters A-Z a-z 0-9 - _ . ~ stay, every other byte becomes %XY (upper case); separators stay *)
+Definition hexdigit (d : N) : N := if d <? 10 then 48 + d else 55 + d.
+
+Definition unreserved (c : N) : bool :=
+  ((48 <=? c) && (c <=? 57)) || ((65 <=? c) && (c <=? 90)) || ((97 <=? c) && (c <=? 122)) ||
+  (c =? 45) || (c =? 95) || (c =? 46) || (c =? 126).
+
+Fixpoint uri_escape (p : str) : str :=
+  match p with
+  | [] => []
+  | c :: p' =>
+      if unreserved c || (c =? SLASH) then c :: uri_escape p'
+      else PERCENT :: hexdigit (c / 16) :: hexdigit (c mod 16) :: uri_escape p'
+  end.
+
+Section OracleLsp.
+  Variable glob_ok : str -> bool.
+  Variable glob_match : str -> str -> bool.
 
   (* ignoreURI: paths, err := FilterIgnoredPaths([ToPath(uri)], cfg.Ignore.Files, false, workspacePath());
      return err != nil || len(paths) == 0 *)
-  Definition lsp_ignore_uri (root_uri : str) (ignore : list str) (u : str) : bool :=
+  Definition lsp_ignore_uri (cl : lsp_client) (root_uri : str) (ignore : list str) (u : str) : bool :=
     negb (has_suffix u dot_rego) ||
-    match go_filter_ignored_paths [uri_to_path u] ignore (uri_to_path root_uri) with
+    match go_filter_ignored_paths glob_ok glob_match [uri_to_path cl u] ignore (uri_to_path cl root_uri) with
     | Some [] => true
     | Some _ => false
     | None => true
     end.
 
-  (* getFilteredModules: FilterIgnoredPaths(keys of the module cache (URIs), ignore, false, workspaceRootURI) *)
-  Definition lsp_filtered_modules (root_uri : str) (ignore : list str) (uris : list str) : option (list str) :=
-    go_filter_ignored_paths uris ignore root_uri.
-End Oracle.
+  (* getFilteredModules (after the repair of round 3): every cached module URI on its own,
+     FilterIgnoredPaths([ToPath(uri)], ignore, false, workspacePath()); an error aborts (None); the result is a
+     map, modelled as the kept URIs in the order of [uris] *)
+  Fixpoint lsp_filtered_modules (cl : lsp_client) (root_uri : str) (ignore : list str) (uris : list str)
+    : option (list str) :=
+    match uris with
+    | [] => Some []
+    | u :: us =>
+        match go_filter_ignored_paths glob_ok glob_match [uri_to_path cl u] ignore (uri_to_path cl root_uri) with
+        | None => None
+        | Some [] => lsp_filtered_modules cl root_uri ignore us
+        | Some _ => option_map (cons u) (lsp_filtered_modules cl root_uri ignore us)
+        end
+    end.
+
+  (* the code before that repair: FilterIgnoredPaths(keys of the module cache (URIs), ignore, false, workspaceRootURI),
+     i.e. the patterns were matched against the percent-encoded text *)
+  Definition lsp_filtered_modules_pinned (root_uri : str) (ignore : list str) (uris : list str) : option (list str) :=
+    go_filter_ignored_paths glob_ok glob_match uris ignore root_uri.
+End OracleLsp.
